@@ -285,7 +285,10 @@ def run_check(modname, tier, verif_seed, nworkers, n_override=None, selftest=Tru
         det = {"same_process_pairs": 0, "fresh_interpreter": 0, "mismatch": []}
         if selftest and results:
             k = 12 if tier == "quick" else 48
-            idxs = [r["index"] for r in results[:: max(1, len(results) // k)]][:k]
+            k = getattr(mod, "SELFTEST_K", {}).get(tier, k)
+            cheap = sorted(results, key=lambda r: (r.get("wall", 0) > 20, r["index"]))
+            cheap = [r for r in cheap if r.get("wall", 0) <= 20] or cheap
+            idxs = [r["index"] for r in cheap[:: max(1, len(cheap) // k)]][:k]
             again = list(pool.map(_run_index, [(modname, verif_seed, tier, i, False) for i in idxs]))
             first = {r["index"]: r for r in results}
             for r in again:
@@ -365,7 +368,9 @@ def run_check(modname, tier, verif_seed, nworkers, n_override=None, selftest=Tru
         for k, val in r.get("probes", {}).items():
             probes[k] = probes.get(k, 0) + val
         events += r.get("events", 0)
-        if r.get("nontrivial"):
+        if r.get("nt_keys") is not None:
+            sigs.update(r["nt_keys"])
+        elif r.get("nontrivial"):
             sigs.add(hashlib.sha256((r.get("signature", "") + "|" + str(r.get("ntkey", ""))).encode()).hexdigest()[:16])
     samples = [{"index": r["index"], "status": r["status"], "signature": r.get("signature", "")[:200],
                 "case": r.get("sample")} for r in results if r.get("sample") is not None][:6]
@@ -376,7 +381,8 @@ def run_check(modname, tier, verif_seed, nworkers, n_override=None, selftest=Tru
         "property_id": prop, "tier": tier, "seed": verif_seed, "level": mod.LEVEL,
         "wall_s": round(wall, 2), "violations": len(reported),
         "coverage": {
-            "evaluations": len(results),
+            "evaluations": sum(r.get("evals", 1) for r in results),
+            "jobs": len(results),
             "distinct_nontrivial": len(sigs),
             "rule": mod.RULE,
             "samples": samples,
